@@ -232,6 +232,16 @@ class record_dynamic:
                     if head is None or [id(x) for x in new[len(head):]] != [id(x) for x in ret] or \
                             any(x.tagname != "system_message" for x in head):
                         me.violations.append(("directive", key))
+                # "the oracle returns fresh nodes": every object of the result occurs once, under its parent
+                seen = set()
+                stack = [(cur, x) for x in new]
+                while stack:
+                    par, x = stack.pop()
+                    if id(x) in seen or x.parent is not par:
+                        me.violations.append(("not-fresh:" + getattr(x, "tagname", "#text"), key))
+                        break
+                    seen.add(id(x))
+                    stack.extend((x, c) for c in getattr(x, "children", ()))
                 if key is not None:
                     me._note(r, key, new, before, wb, r.current_node is cur)
                 return res
